@@ -104,6 +104,8 @@ theorem step_bindParams (ih : AllTri f) : ∀ t ps es vs acc, es.length = ps.len
             split
             · exact Run.rtErr hW1 hE01 _ _
             · rename_i harr
+              split
+              · exact Run.rtErr hW1 hE01 _ _
               refine Run.ro hW1 hE01 (ro_locIsConst h.loc) fun c _ => ?_
               obtain ⟨hv, hrd, hk⟩ := hh
               rw [if_neg harr] at hk
